@@ -41,7 +41,7 @@ func init() {
 				return 60_000
 			}, Run: c15Gradient,
 				Min: map[string]int64{"gradients": 20000, "probes": 1000000, "exact_integer_offsets": 2000, "exact_odd_integer_reflect": 100, "exact_stop_offsets": 1000, "negative_offsets": 50000, "offsets_above_1": 50000, "offsets_inside_0_1": 200000,
-					"spread_none": 10000, "spread_pad": 10000, "spread_reflect": 10000, "spread_repeat": 10000, "radial": 100000, "linear": 100000, "transparent_outside": 1000, "dyadic_gradients": 5000}},
+					"spread_none": 10000, "spread_pad": 10000, "spread_reflect": 10000, "spread_repeat": 10000, "radial": 100000, "linear": 100000, "transparent_outside": 1000, "dyadic_gradients": 5000, "far_offset_gradients": 3000}},
 			{Name: "pixels", N: func(t string) uint64 {
 				if t == "thorough" {
 					return 150_000
@@ -62,6 +62,7 @@ type c15Grad struct {
 	cols   []color.RGBA
 	offs   []float32
 	dyadic bool
+	far    bool
 }
 
 func c15Gen(r *run.Rng, small bool) *c15Grad {
@@ -130,6 +131,17 @@ func c15Gen(r *run.Rng, small bool) *c15Grad {
 		cx, cy := float64(q.vb.MinX)+vw*r.F64(), float64(q.vb.MinY)+vh*r.F64()
 		q.m[2] = float32(r.Uniform(-3, 3) - float64(q.m[0])*cx - float64(q.m[1])*cy)
 		q.m[5] = float32(r.Uniform(-3, 3) - float64(q.m[3])*cx - float64(q.m[4])*cy)
+	}
+	if r.Chance(1, 6) {
+		// offsets far outside [0,1]: hundreds to millions of periods away
+		q.far = true
+		f := float32(math.Ldexp(1, r.Range(6, 20)))
+		if !q.dyadic {
+			f = float32(r.LogUniform(1e2, 1e6))
+		}
+		for i := range q.m {
+			q.m[i] *= f
+		}
 	}
 	return q
 }
@@ -273,6 +285,9 @@ func c15Gradient(c *run.Ctx, idx uint64) {
 	if q.dyadic {
 		c.Count("dyadic_gradients", 1)
 	}
+	if q.far {
+		c.Count("far_offset_gradients", 1)
+	}
 	c.Count("spread_"+[]string{"none", "pad", "reflect", "repeat"}[q.g.Spread], 1)
 	var paint *rec.Paint
 	for i := range rz.Calls {
@@ -311,6 +326,7 @@ func c15Gradient(c *run.Ctx, idx uint64) {
 		} else {
 			c.Count("linear", 1)
 		}
+		c.MaxF("largest_offset_magnitude", math.Min(math.Abs(o), 1e300))
 		switch {
 		case o < 0:
 			c.Count("negative_offsets", 1)
